@@ -91,23 +91,28 @@ pub fn nest_jar<A>(remap_option: bool, src: &impl Jar, nests: Nests<A>) -> Resul
 	let mut dst_resulting_entries = IndexMap::new();
 
 	// only when remapping it's needed
-	fn remap(this_nests: &IndexMap<ObjClassName, Nest>, corresponding_nest: &Nest) -> ObjClassName {
-		let result = this_nests.get(&corresponding_nest.encl_class_name)
-			.map(|nest| remap(this_nests, nest))
-			.unwrap_or_else(|| corresponding_nest.encl_class_name.clone());
+	fn remap(this_nests: &IndexMap<ObjClassName, Nest>, corresponding_nest: &Nest, depth: usize) -> Result<ObjClassName> {
+		// a chain of enclosing classes visits every nest at most once, unless the table is cyclic
+		if depth > this_nests.len() {
+			anyhow::bail!("cyclic nests: {:?} encloses itself", corresponding_nest.class_name);
+		}
+		let result = match this_nests.get(&corresponding_nest.encl_class_name) {
+			Some(nest) => remap(this_nests, nest, depth + 1)?,
+			None => corresponding_nest.encl_class_name.clone(),
+		};
 
 		let mut s: JavaString = result.into_inner();
 		s.push('$');
 		s.push_java_str(corresponding_nest.inner_name.as_inner());
 		// TODO: redo this safety comment
 		// SAFETY: Joining a class name with `$` and an inner name is always valid.
-		unsafe { ObjClassName::from_inner_unchecked(s) }
+		Ok(unsafe { ObjClassName::from_inner_unchecked(s) })
 	}
 
 	let map = this_nests.iter()
-		.map(|(old_name, nest)| (old_name.as_slice(), remap(&this_nests, nest)))
-		.filter(|(old_name, new_name)| old_name != new_name)
-		.collect();
+		.map(|(old_name, nest)| Ok((old_name.as_slice(), remap(&this_nests, nest, 0)?)))
+		.filter(|r: &Result<(&ObjClassNameSlice, ObjClassName)>| r.as_ref().map_or(true, |(old_name, new_name)| old_name != new_name))
+		.collect::<Result<_>>()?;
 
 	struct MyRemapper<'a>(IndexMap<&'a ObjClassNameSlice, ObjClassName>);
 	impl ARemapper for MyRemapper<'_> {
